@@ -1041,7 +1041,7 @@ def inline_walk(prog, ctx, depth=3, _path=()):
         if any(p[0] == rk for p in _path):
             continue
         idx = len(blk["stmts"])
-        params = {i + 1: _ctor_norm(prog, ctx.T.operand(a, bi, idx)) for i, a in enumerate(t["args"])}
+        params = {i + 1: _ctor_norm(prog, ctx.T.operand(a, bi, idx), 0, ctx.assumptions) for i, a in enumerate(t["args"])}
         sub = ctx.sub(cb, params=params)
         yield from inline_walk(prog, sub, depth - 1, _path + ((b.key, bi, "call"),))
 
@@ -1066,7 +1066,7 @@ def _closure_elem_params(ctx, cterm):
     return None
 
 
-def _ctor_norm(prog, t, _d=0):
+def _ctor_norm(prog, t, _d=0, assumptions=()):
     """an argument that is the result of local constructor / builder calls
     (`Transfer::new(to, coin).with_reply_id(id)`) is passed on as the struct value they build, so
     that the callee's reads of its fields resolve to the caller's terms.  Only calls that return a
@@ -1075,18 +1075,18 @@ def _ctor_norm(prog, t, _d=0):
     if _d > 3:
         return t
     if t[0] == "tuple":
-        el = tuple(_ctor_norm(prog, a, _d + 1) for a in t[1])
+        el = tuple(_ctor_norm(prog, a, _d + 1, assumptions) for a in t[1])
         return intern(("tuple", el)) if el != t[1] else t
     if t[0] == "field":
-        base = _ctor_norm(prog, t[1], _d + 1)
+        base = _ctor_norm(prog, t[1], _d + 1, assumptions)
         return intern(field_of(base, t[2])) if base is not t[1] and base != t[1] else t
     if t[0] != "call":
         return t
     cb = _callee_body(prog, t)
     if cb is None or not _is_pure_small(prog, cb):
         return t
-    args = tuple(_ctor_norm(prog, a, _d + 1) for a in t[2])
-    c = Ctx(cb, params={i + 1: a for i, a in enumerate(args)}).settle()
+    args = tuple(_ctor_norm(prog, a, _d + 1, assumptions) for a in t[2])
+    c = Ctx(cb, params={i + 1: a for i, a in enumerate(args)}, assumptions=assumptions).settle()
     rt = c.T.return_term()
     if contains(rt, lambda s_: s_[0] in ("cycle", "undef")) and not any(contains(a, lambda s_: s_[0] in ("cycle", "undef")) for a in args):
         return t
